@@ -189,7 +189,7 @@ def run_doc_check(prop, tier, seed, driver_ok, *, n_quick, n_thorough, profiles,
             for f in fails[:1]:
                 oracle_failures.append({"name": f"{prop} oracle", "case": light_case(c) | {"doc": c["doc"]}, "what": f,
                                         "all": fails[:5]})
-            usable.append(r)
+        usable.append(r)
         if nontrivial is None or nontrivial(r):
             distinct.add(r.get("digest") or json.dumps(describe_doc(c["doc"]), sort_keys=True))
         if len(samples) < 4 and c["index"] % max(1, len(cases) // 4) == 0:
